@@ -128,6 +128,25 @@ var c01Constructs = []c01Construct{
 		delete(d, "x")
 		return map[string]string{"page.vuego": `<template include="comp.vuego" x="{{ y }}"></template>`, "comp.vuego": "<section>" + s + "</section>"}, d
 	}},
+	// the include tag is itself a member of a conditional chain (it takes the chain walker's path to evalTemplate)
+	{"include-interp-vif", func(s string, v any) (map[string]string, map[string]any) {
+		d := c01Data(v)
+		d["y"] = v
+		delete(d, "x")
+		return map[string]string{"page.vuego": `<template v-if="t" include="comp.vuego" x="{{ y }}"></template><i v-else>no</i>`, "comp.vuego": "<section>" + s + "</section>"}, d
+	}},
+	{"include-interp-velse", func(s string, v any) (map[string]string, map[string]any) {
+		d := c01Data(v)
+		d["y"] = v
+		delete(d, "x")
+		return map[string]string{"page.vuego": `<i v-if="none">n</i><template v-else include="comp.vuego" x="{{ y }}"></template>`, "comp.vuego": "<section>" + s + "</section>"}, d
+	}},
+	{"include-bound-velseif", func(s string, v any) (map[string]string, map[string]any) {
+		d := c01Data(v)
+		d["y"] = v
+		delete(d, "x")
+		return map[string]string{"page.vuego": `<i v-if="none">n</i><template v-else-if="t" include="comp.vuego" :x="y"></template>`, "comp.vuego": "<section>" + s + "</section>"}, d
+	}},
 	{"include-wrapped", func(s string, v any) (map[string]string, map[string]any) {
 		d := c01Data(v)
 		d["y"] = v
